@@ -368,10 +368,16 @@ func replay(path string) int {
 	defer os.RemoveAll(work)
 	scPath := filepath.Join(work, "scenario.json")
 	os.WriteFile(scPath, rf.Scenario.JSON(), 0o644)
-	tries := 1
+	// Engine S: one execution is expected to reproduce the file exactly. The one
+	// source of nondeterminism no seed controls is Go's random choice among
+	// ready select cases (DESIGN 4); a violation that hangs on such a choice (a
+	// defect all the same, F18 was one) reproduces in some executions only, so
+	// the replay is repeated a few times before it is declared not reproduced.
+	tries := 8
 	if race {
 		tries = 20
 	}
+	hashDiffers := ""
 	for t := 0; t < tries; t++ {
 		res := runWorker(bin, work, sim.WorkerSpec{Mode: "replay", Prop: rf.Property, Scenario: scPath, Race: race}, 5*time.Minute)
 		if rf.Crash != "" {
@@ -400,15 +406,22 @@ func replay(path string) int {
 			for _, v := range l.Viol {
 				if v.Sig() == rf.Expected.Signature {
 					if !race && l.Hash != rf.Expected.TraceHash {
-						fmt.Printf("same violation but trace hash differs: got %s want %s\n", l.Hash, rf.Expected.TraceHash)
-						return 3
+						hashDiffers = fmt.Sprintf("same violation but trace hash differs: got %s want %s", l.Hash, rf.Expected.TraceHash)
+						continue
 					}
 					fmt.Printf("VIOLATION property=%s replay=%s\n", rf.Property, path)
+					if t > 0 && !race {
+						fmt.Printf("reproduced in execution %d of at most %d (the outcome of this scenario depends on Go's random choice among ready select cases): %s: %s (trace hash %s)\n", t+1, tries, v.Sig(), v.Detail, l.Hash)
+						return 1
+					}
 					fmt.Printf("reproduced: %s: %s (trace hash %s)\n", v.Sig(), v.Detail, l.Hash)
 					return 1
 				}
 			}
 		}
+	}
+	if hashDiffers != "" {
+		fmt.Println(hashDiffers)
 	}
 	fmt.Printf("did not reproduce %s from %s\n", rf.Expected.Signature, path)
 	return 3
@@ -536,6 +549,20 @@ func check(prop, tier string) int {
 			path := writeReplay(prop, *mv, msc, mhash, mtrace, vr)
 			// replay in a fresh process must reproduce exactly
 			if rc := replayQuiet(path); rc != 1 {
+				// the minimised scenario behaves differently in a fresh process (its
+				// outcome hangs on the order in which the Go scheduler runs goroutines
+				// that became runnable in the same step, DESIGN 4): fall back to the
+				// scenario as found, which must then reproduce in fresh processes
+				ov, osc, ohash, otrace, onote := replayOriginal(work, prop, v, vr)
+				if ov != nil && matchKnown(known, *ov) == nil {
+					opath := writeReplay(prop, *ov, osc, ohash, otrace, vr)
+					if replayQuiet(opath) == 1 {
+						fmt.Printf("VIOLATION property=%s replay=%s\n", prop, opath)
+						fmt.Printf("  %s: %s\n  not minimised (%d ops, %d faults, %d script items): the minimised scenario %s did not reproduce in a fresh process (%s)\n", ov.Sig(), ov.Detail, len(osc.Ops), len(osc.Faults), len(osc.Script), filepath.Base(path), onote)
+						nViol++
+						continue
+					}
+				}
 				exit2 = fmt.Sprintf("replay of %s did not reproduce (rc=%d)", path, rc)
 				continue
 			}
